@@ -350,6 +350,34 @@ func xFalseMember(s, inst jv) (jv, jv) {
 	}), inst
 }
 
+// xAnyOfFalseMember: a literal `false` member of anyOf -> {"not":{}} (equivalent).  The importer
+// puts error("disallowed") into the matchN(>=1, …) list; on a FIELD that gets a second matchN
+// validator from another conjunct (properties + patternProperties on the same key) the evaluator
+// then reports "disallowed" although another member matches.
+func xAnyOfFalseMember(s, inst jv) (jv, jv) {
+	return mapSchemas(s, func(o jobj) jobj {
+		out := jobj{}
+		for _, e := range o {
+			if e.k == "anyOf" {
+				if a, ok := e.v.([]jv); ok {
+					b := make([]jv, len(a))
+					for i, m := range a {
+						if m == false {
+							b[i] = jobj{{"not", jobj{}}}
+						} else {
+							b[i] = m
+						}
+					}
+					out = append(out, jkv{e.k, b})
+					continue
+				}
+			}
+			out = append(out, e)
+		}
+		return out
+	}), inst
+}
+
 // xContains: contains S  ==  not array  OR  not (every item satisfies not S): expressed with
 // the core validators (matchN), which treat an incomplete evaluation as a failure, instead of
 // list.MatchN.
@@ -591,6 +619,7 @@ func c13Xforms(inst jv) []c13Xform {
 		{"number-literal-form", xNumberForm, ""},
 		{"type-integer-and-number", xTypeList, ""},
 		{"combinator-false-member", xFalseMember, ""},
+		{"anyOf-false-member-second-validator", xAnyOfFalseMember, ""},
 		{"enum-two-objects", xEnumObjects, ""},
 		{"defs-bare-validator", xDefsOpen, ""},
 		{"propertyNames", xDropPropertyNames, ""},
